@@ -20,9 +20,9 @@ for v in a r1 r2; do
     res="$res demo_pkg=$PKG demo_with_change_exit=$M demo_clean_exit=$C"
     { [ $M -ne 0 ] && [ $C -eq 0 ]; } || { okall=0; tail -4 "$T/mut.log" "$T/clean.log"; }
   fi
-  echo "$P-5$v $res valid=$okall"
+  echo "$P-$R$v $res valid=$okall"
   if [ $okall = 1 ]; then
-    D=/verif/seeded/$P-5$v; mkdir -p $D; cp $S/patch.diff $S/meta.json $D/; [ -f $S/demo_test.go.txt ] && cp $S/demo_test.go.txt $D/demo_test.go
+    D=/verif/seeded/$P-$R$v; mkdir -p $D; cp $S/patch.diff $S/meta.json $D/; [ -f $S/demo_test.go.txt ] && cp $S/demo_test.go.txt $D/demo_test.go
   fi
   rm -rf $T
 done
